@@ -14,13 +14,103 @@ from core import CorrResult, Prop
 from props import grading_common as gc
 
 
-def make_prio(rng):
-    salt = rng.random()
-
+def prio_from_salt(salt):
     def prio(label):
         import hashlib
         return hashlib.sha1((repr(label) + repr(salt)).encode()).hexdigest()
+    prio.salt = salt
     return prio
+
+
+def make_prio(rng):
+    return prio_from_salt(rng.random())
+
+
+def lattice_dir(perm, a):
+    """lattice direction (0,1,2) and sense (+1/-1) of block axis a under the corner numbering perm"""
+    c1, c2 = gc.AXIS_PAIRS_REF[a][0]
+    p, q = gc.XYZ[perm[c1]], gc.XYZ[perm[c2]]
+    d = [q[i] - p[i] for i in range(3)]
+    return (d.index(1), 1) if 1 in d else (d.index(-1), -1)
+
+
+def user_sections_agree(asm):
+    """Python counterpart of Proofs/PropagateOrder.user_agree: on every lattice edge all user-chopped directions with a
+    wire there list the same section counts (read along the + lattice direction).  None if some chop is not count-only."""
+    per_edge = {}
+    for (ci, a), ch in asm.chops.items():
+        if not ch:
+            continue
+        if any("count" not in c for c in ch):
+            return None
+        _d, sgn = lattice_dir(asm.perms[ci], a)
+        lst = [int(c["count"]) for c in ch]
+        if sgn < 0:
+            lst.reverse()
+        i, j, k = asm.cells[ci]
+        for (c1, c2) in gc.AXIS_PAIRS_REF[a]:
+            e = frozenset((i + x, j + y, k + z) for (x, y, z) in (gc.XYZ[asm.perms[ci][c1]], gc.XYZ[asm.perms[ci][c2]]))
+            per_edge.setdefault(e, set()).add(tuple(lst))
+    return all(len(v) == 1 for v in per_edge.values())
+
+
+def sections_oracle(asm, r):
+    """C02_complete_sections_input on the implementation: with every family chopped and no conflicting totals, writing
+    succeeds exactly when the user's section lists meeting on shared edges agree - under every schedule."""
+    agree = user_sections_agree(asm)
+    if agree is None:
+        return None
+    stat = gc.chop_counts_static(asm)
+    totals = {(asm.order[p], a): sum(cs) for (p, a), cs in stat.items()}
+    exp, _counts = gc.expected_outcome(asm, totals)
+    if exp != "ok":
+        return None   # undefined / count conflict: decided by gc.direct_oracle
+    want = "ok" if agree else "inconsistent"
+    if r["outcome"] != want:
+        return "user section lists on shared edges %s but outcome is %s" % ("agree" if agree else "disagree", r["outcome"])
+    return None
+
+
+# a propagated block B (index 1) between two chopped blocks A (0) and C (2) whose chops along the common direction
+# have equal totals and possibly different section lists; D (3) is a second propagated block
+SANDWICH = {
+    "face_edge": [(0, 0, 0), (0, 1, 0), (0, 2, 1)],             # A shares a face with B, C one edge: one free wire on B
+    "edge_edge": [(0, 0, 0), (0, 1, 1), (0, 2, 2)],             # both share one edge only: two free wires on B
+    "stack": [(0, 0, 0), (0, 1, 0), (0, 2, 0)],                 # both share faces: no free wire
+    "meet": [(0, 0, 0), (0, 1, 0), (0, 1, 1)],                  # A and C share an edge themselves: their chops meet
+    "ring": [(0, 0, 0), (0, 1, 0), (0, 1, 1), (0, 0, 1)],       # four blocks around one edge, two of them propagated
+}
+
+
+def sandwich_assembly(rng):
+    name = rng.choice(sorted(SANDWICH))
+    p3 = rng.sample(range(3), 3)
+    flip = [rng.random() < 0.5 for _ in range(3)]
+
+    def mp(c):
+        return tuple((2 - c[p3[i]]) if flip[i] else c[p3[i]] for i in range(3))
+    cells = [mp(c) for c in SANDWICH[name]]
+    d = p3.index(0)
+    perms = [rng.choice(gc.ROT24) for _ in cells]
+    asm = gc.Assembly(cells, perms, {}, {}, rng.sample(range(len(cells)), len(cells)))
+    for f in gc.families(asm):
+        asm.chops[f[0]] = [dict(count=rng.choice([2, 3, 4]))]
+
+    def along(ci):
+        return [(a, lattice_dir(perms[ci], a)[1]) for a in range(3) if lattice_dir(perms[ci], a)[0] == d][0]
+    for ci in range(len(cells)):
+        asm.chops.pop((ci, along(ci)[0]), None)
+    a_, b_ = rng.sample([1, 2, 3, 4, 5], 2)
+    tot = a_ + b_
+    variant = rng.choice(["same", "swapped", "swapped", "other", "single", "total"])
+    other = rng.choice([c for c in range(1, tot) if c != a_])
+    lc = dict(same=[a_, b_], swapped=[b_, a_], other=[other, tot - other], single=[tot], total=[a_, b_ + 1])[variant]
+    for ci, phys in ((0, [a_, b_]), (2, lc)):
+        a, sgn = along(ci)
+        lst = phys if sgn > 0 else phys[::-1]
+        asm.chops[(ci, a)] = [dict(count=lst[0])] if len(lst) == 1 else [dict(length_ratio=0.5, count=k) for k in lst]
+    asm.mode = "sandwich:%s:%s" % (name, variant)
+    return asm
 
 
 def corr_grading(ctx, res, cases_spec, tag):
@@ -36,10 +126,10 @@ def corr_grading(ctx, res, cases_spec, tag):
         res.count("mode=" + getattr(asm, "mode", ""))
         if len(asm.cells) >= 2 and asm.chops:
             res.distinct.add(json.dumps(asm.to_json(), sort_keys=True) + str(prio is not None))
-        why = gc.direct_oracle(asm, r)
+        why = gc.direct_oracle(asm, r) or sections_oracle(asm, r)
         if why:
             res.oracle_failures.append(dict(kind="assembly", assembly=asm.to_json(), injected=prio is not None,
-                                            outcome=r["outcome"], why=why))
+                                            salt=getattr(prio, "salt", None), outcome=r["outcome"], why=why))
     # Coq side
     shards = []
     per = 60
@@ -136,7 +226,7 @@ def ambiguous_assembly(rng):
 
 class C02(Prop):
     pid = "C02"
-    prebuilt = gc.PREBUILT
+    prebuilt = gc.PREBUILT + ["Proofs/PropagateOrder.v"]
     gen_dependent_files = ["Gen/C02/Tables.v"]
     property_files = ["Properties/C02.v"]
     trusted = [
@@ -180,6 +270,10 @@ class C02(Prop):
                     "renumbered by a random rotation; jittered vertices; random insertion order) x chop placements (count-only, some "
                     "two-section; families left empty or conflicting in ~40%) x {native, injected} iteration order of "
                     "neighbour/coincident containers; compared in Coq: outcome kind, (nx,ny,nz) per block, count per wire; "
+                    "plus sandwich family: propagated block(s) between two chopped neighbours with equal totals and different "
+                    "multi-section lists (5 contact patterns x 6 list variants x random direction/numbering/insertion order) under "
+                    "native + 2 injected schedules, outcome kind and counts compared between the schedules, with the model, and "
+                    "with the prediction from the user's chops alone; "
                     "non-trivial = >=2 blocks and >=1 chop; distinct by assembly json + schedule kind")
         spec = self.cases(ctx)
         # corpus first
@@ -201,8 +295,44 @@ class C02(Prop):
             why = compare_geometric(asm, r, asm2, r2)
             if why:
                 res.oracle_failures.append(dict(kind="order", assembly=asm.to_json(), assembly2=asm2.to_json(), why=why))
+        if not res.error:
+            self.sandwich(ctx, res)
         determinism_probe(ctx, res, [ambiguous_assembly(ctx.rng) for _ in range(ctx.n(4, 40))], 8)
         return res
+
+    def sandwich(self, ctx, res):
+        """Propagated block(s) between two chopped neighbours with equal totals and different multi-section lists, each
+        assembly under the native and two injected schedules: model comparison in Coq per run, and between the
+        schedules outcome kind, block counts and wire counts must coincide (C02_order_independent); which kind it
+        is, is predicted from the user's chops alone (sections_oracle = C02_complete_sections_input)."""
+        rng = ctx.rng
+        spec = []
+        for _ in range(ctx.n(70, 900)):
+            asm = sandwich_assembly(rng)
+            spec += [(asm, None), (asm, make_prio(rng)), (asm, make_prio(rng))]
+        done = corr_grading(ctx, res, spec, "c02s")
+        if res.error:
+            return
+        for k in range(0, len(done), 3):
+            asm = done[k][0]
+            runs = [d[2] for d in done[k:k + 3]]
+            salts = [getattr(p, "salt", None) for (_a, p) in spec[k:k + 3]]
+            res.count("sandwich=%s" % asm.mode.split(":")[1])
+            res.count("sandwich_lists=%s:%s" % (asm.mode.split(":")[2], runs[0]["outcome"]))
+            why = None
+            for j in (1, 2):
+                if runs[j]["outcome"] != runs[0]["outcome"]:
+                    why = "outcome %s under one iteration order, %s under another" % (runs[0]["outcome"], runs[j]["outcome"])
+                elif runs[0]["outcome"] == "ok" and (runs[j]["counts"] != runs[0]["counts"]
+                                                     or runs[j]["wire_counts"] != runs[0]["wire_counts"]):
+                    why = "counts differ between two iteration orders"
+            if why:
+                res.oracle_failures.append(dict(kind="schedule", assembly=asm.to_json(), salts=salts,
+                                                outcomes=[r["outcome"] for r in runs], why=why))
+            elif runs[0]["outcome"] == "ok" and any(r["wire_specs"] != runs[0]["wire_specs"] for r in runs[1:]):
+                # not a failure: section lists of free wires of propagated blocks follow the neighbour met first
+                # (Properties/C02.v, C02_free_wire_sections_order_dependent)
+                res.count("sandwich_free_wire_sections_differ_between_schedules")
 
     def search(self, ctx, broken, corr):
         fails = []
@@ -226,9 +356,15 @@ class C02(Prop):
 
     def replay(self, ctx, obj):
         asm = gc.Assembly.from_json(obj["assembly"])
-        r = gc.run_impl(asm, ctx.work, None)
-        print("implementation outcome:", r["outcome"], r.get("counts"))
-        print("oracle:", gc.direct_oracle(asm, r) or "ok")
+        salts = obj.get("salts") or [obj.get("salt")]
+        outs = []
+        for salt in salts:
+            r = gc.run_impl(asm, ctx.work, prio_from_salt(salt) if salt is not None else None)
+            outs.append((r["outcome"], r.get("counts"), r.get("wire_counts")))
+            print("schedule %s: implementation outcome:" % ("native" if salt is None else "injected(%r)" % salt), r["outcome"], r.get("counts"))
+            print("oracle:", gc.direct_oracle(asm, r) or sections_oracle(asm, r) or "ok")
+        if len(outs) > 1:
+            print("schedules agree:", all(o == outs[0] for o in outs))
         return 0
 
 
